@@ -179,3 +179,23 @@ Proof.
   - exact S.
   - apply dims_ksorted. exact Hnd.
 Qed.
+
+(* ---- to_qtt: a tensor whose modes are 2^k_i (k_i >= 1) gets exactly sum k_i modes of size 2, and the number of entries is kept ---- *)
+Lemma qtt_modes_pow2 (ks : list nat) : Forall (fun k => 1 <= k) ks ->
+  qtt_modes (map (fun k => 2 ^ k) ks) = repeat 2 (fold_right Nat.add 0 ks).
+Proof.
+  induction ks as [|k t IH]; intros H; [reflexivity|]. inversion H as [|? ? Hk Ht]; subst.
+  cbn [map qtt_modes flat_map fold_right]. fold (qtt_modes (map (fun k => 2 ^ k) t)). rewrite IH by assumption.
+  rewrite Nat.log2_pow2 by lia. rewrite repeat_app.
+  destruct (Nat.ltb_spec 1 k) as [H1|H1]; [reflexivity|].
+  assert (k = 1) by lia. subst k. reflexivity.
+Qed.
+Lemma prod_repeat2 k : fold_right Nat.mul 1 (repeat 2 k) = 2 ^ k.
+Proof. induction k as [|k IH]; cbn [repeat fold_right]; [reflexivity|]. rewrite IH. cbn [Nat.pow]. lia. Qed.
+Theorem qtt_modes_spec (ks : list nat) : Forall (fun k => 1 <= k) ks ->
+  qtt_modes (map (fun k => 2 ^ k) ks) = repeat 2 (fold_right Nat.add 0 ks) /\
+  fold_right Nat.mul 1 (qtt_modes (map (fun k => 2 ^ k) ks)) = fold_right Nat.mul 1 (map (fun k => 2 ^ k) ks).
+Proof.
+  intros H. split; [apply qtt_modes_pow2; exact H|]. rewrite qtt_modes_pow2 by exact H. rewrite prod_repeat2.
+  clear H. induction ks as [|k t IH]; cbn [map fold_right]; [reflexivity|]. rewrite Nat.pow_add_r, IH. reflexivity.
+Qed.
